@@ -5,7 +5,8 @@
 (* wire type, payload length / varint width) far outside the byte alphabet *)
 (* of MC_Parse -- every payload length 0..1100 and the lengths around the  *)
 (* 2- and 3-byte length-prefix boundaries, tags of every width, varint     *)
-(* values of every width including padded (non-minimal) encodings, each    *)
+(* values of every width including padded (non-minimal) encodings, padded  *)
+(* tags, each                                                              *)
 (* followed by trailing bytes that must not be consumed.                   *)
 (*                                                                         *)
 (* The harness builds the bytes from the description, calls Skip and       *)
@@ -26,9 +27,11 @@ BodyLen(e) ==
       [] e.wt = 2 -> Len(Varint(e.nd)) + e.n
 WellDescribed(e) ==
     /\ e.num >= 1 /\ e.num <= 536870911
+    /\ e.tpad >= 0 /\ TagSize(e.num, e.wt) + e.tpad <= 10
     /\ (e.wt = 0 => e.vlen >= Len(Varint(e.d)) /\ e.vlen <= 10)
     /\ (e.wt = 2 => DigitsToNat(e.nd) = e.n)
-RecLen(e) == TagSize(e.num, e.wt) + BodyLen(e)
+\* e.tpad: extra continuation groups in the TAG varint (a non-minimal but valid encoding)
+RecLen(e) == TagSize(e.num, e.wt) + e.tpad + BodyLen(e)
 
 Step ==
     /\ l <= Len(Trace)
